@@ -136,6 +136,7 @@ func rulesC03(c *Ctx) {
 	rulesC03Atomic(c)
 	// iterator: a subtree that lies entirely above the seek key is not skipped into
 	rulesC03Iter(c)
+	rulesC03Round3(c)
 	// every dereference refreshes the pointer's LRU position before anything is fetched (and therefore before anything
 	// can be evicted): the nodes on the path being traversed are the most recently used ones and are evicted last
 	if fn := c.needFn("C03.evict", "storage/mkvs.(*cache).derefNodePtr"); fn != nil {
